@@ -1170,6 +1170,47 @@ def while_loop(
   )(scope)
 
 
+def _copy_rng_counts(counters):
+  return {
+    k: _copy_rng_counts(v) if isinstance(v, dict) else v
+    for k, v in counters.items()
+  }
+
+
+def _restore_rng_counts(counters, saved):
+  # in place: child scopes alias the nested counter dicts
+  for k in list(counters):
+    if k not in saved:
+      del counters[k]
+  for k, v in saved.items():
+    if isinstance(v, dict):
+      if not isinstance(counters.get(k), dict):
+        counters[k] = {}
+      _restore_rng_counts(counters[k], v)
+    else:
+      counters[k] = v
+
+
+def _branch_rng_reset(scope_fn, variable_groups, rng_groups):
+  """Returns a function that puts the rng counters back to their values on entry.
+
+  The branches of `cond` / `switch` are all traced, one after the other, against
+  rng counters shared with the outer scopes; every branch must start from the
+  counts the conditional was entered with, like the single branch that the
+  equivalent Python control flow runs.
+  """
+  rng_counts = [
+    _copy_rng_counts(s.rng_counters)
+    for s in jax.tree_util.tree_leaves(scope_fn(variable_groups, rng_groups))
+  ]
+
+  def reset(scopes):
+    for s, counts in zip(jax.tree_util.tree_leaves(scopes), rng_counts):
+      _restore_rng_counts(s.rng_counters, counts)
+
+  return reset
+
+
 def cond(
   pred: Any,
   true_fun: Callable[..., C],
@@ -1221,8 +1262,11 @@ def cond(
   branches = [true_fun, false_fun]
 
   def inner(scope_fn, repack_fn, variable_groups, rng_groups):
+    reset_rng_counts = _branch_rng_reset(scope_fn, variable_groups, rng_groups)
+
     def branch_wrapper(branch_fn, *operands):
       scope = scope_fn(variable_groups, rng_groups)
+      reset_rng_counts(scope)
       y = branch_fn(scope, *operands)
       return y, repack_fn(scope)
 
@@ -1307,8 +1351,11 @@ def switch(
   """
 
   def inner(scope_fn, repack_fn, variable_groups, rng_groups):
+    reset_rng_counts = _branch_rng_reset(scope_fn, variable_groups, rng_groups)
+
     def branch_wrapper(branch_fn, *operands):
       scope = scope_fn(variable_groups, rng_groups)
+      reset_rng_counts(scope)
       y = branch_fn(scope, *operands)
       return y, repack_fn(scope)
 
